@@ -230,7 +230,7 @@ class Scheduler:
 
     def vtimer_tick(self) -> float:
         """timer() of a busy polling loop without sleep (broadcast channel): treated as a very short sleep."""
-        self.vsleep(0.01)
+        self.vsleep(0.1)
         return self.clock
 
 
